@@ -25,7 +25,7 @@ import (
 	"verifharness/gal"
 )
 
-const header = "From CSS Require Import Lib.Base Lib.Cases Model.Ranges Model.Refs Model.RefsHeap Model.RefsCases."
+const header = "From CSS Require Import Lib.Base Lib.Cases Model.Ranges Model.Refs Model.RefsHeap Model.RefsBytes Model.RegFile Model.RefsCases."
 
 const (
 	siteData  = "pkg/bootflow/types/data.go"
@@ -79,6 +79,7 @@ type hart struct {
 	tn      string // fmt %T
 	raw     bool
 	content []byte
+	regs    *hregfile // a register file (the real TXTPublic / AMDRegisters): no content, registers instead
 }
 
 type pool struct {
@@ -281,10 +282,15 @@ func obsBytes(panicked bool, b []byte) string {
 func (p *pool) descrRefs(rs []href) []map[string]interface{} {
 	out := []map[string]interface{}{}
 	for _, r := range rs {
-		out = append(out, map[string]interface{}{
+		m := map[string]interface{}{
 			"artifact": r.art.id, "type": r.art.tn, "content": fmt.Sprintf("%x", r.art.content),
 			"mapper": mapperKey(r.mapper), "ranges": fmt.Sprint(r.ranges),
-		})
+		}
+		if r.art.regs != nil {
+			delete(m, "content")
+			m["registers"] = r.art.regs.descr()
+		}
+		out = append(out, m)
 	}
 	return out
 }
@@ -347,7 +353,9 @@ func main() {
 		g.bytesCases(c.Scale(500, 4000))
 		g.progCases(np)
 	}
+	g.regFileCases(c.Scale(260, 2000))
 	g.fixedCases()
+	g.fixedRegisterCases()
 	g.fixedPrograms()
 	g.probes()
 
